@@ -139,6 +139,22 @@ func (c *octx) outcome(clause string, checkAction, checkErrIdentity bool) *eng.V
 	return nil
 }
 
+// nothingAfterReturn: no user callback of a run is invoked (or still running)
+// after that run has returned.
+func (c *octx) nothingAfterReturn(clause string) *eng.Violation {
+	for i, or := range c.obs.Runs {
+		if or.End == nil {
+			continue
+		}
+		for _, e := range or.All {
+			if isCallback(e.Kind) && e.Seq > or.End.Seq {
+				return c.viol(clause, "run %d had already returned (seq %d) when %s of node %d (item %d) was invoked at seq %d", i, or.End.Seq, e.Kind, e.N, e.I-1, e.Seq)
+			}
+		}
+	}
+	return nil
+}
+
 // failStop: after the callback whose error ended the run returned, no further
 // callback of that run is invoked.
 func (c *octx) failStop(clause string) *eng.Violation {
@@ -209,7 +225,7 @@ func oracle(c *octx) *eng.Violation {
 	case "C03":
 		return first(c.mainEq("path", projVisits, false), c.onlyModelVisits("off-path"), c.outcome("result", false, false))
 	case "C04":
-		return first(c.outcome("error", false, true), c.failStop("fail-stop"))
+		return first(c.outcome("error", false, true), c.failStop("fail-stop"), c.nothingAfterReturn("callback-after-return"))
 	case "C05":
 		return c.cancelRules()
 	case "C19":
@@ -230,7 +246,7 @@ func oracle(c *octx) *eng.Violation {
 			// item event, once, and a slot is the item's real outcome or an error
 			return first(c.postAfterItems(), c.slotsHonest())
 		}
-		return first(c.slots("slot"), c.mainEq("post-once", projC06, false))
+		return first(c.slots("slot"), c.mainEq("post-once", projC06, false), c.nothingAfterReturn("callback-after-return"))
 	case "C07":
 		return first(c.lanesEq("item-trace", projFull, false), c.slots("slot"))
 	case "C08":
@@ -815,5 +831,5 @@ func (c *octx) batchCancel() *eng.Violation {
 			}
 		}
 	}
-	return c.slotsHonest()
+	return first(c.slotsHonest(), c.nothingAfterReturn("callback-after-return"))
 }
